@@ -9,7 +9,47 @@ BASE_NOTE = (
     "the correspondence harness that runs the real code and the model on the same inputs. "
 )
 
+HARNESS_NOTE = "Modelled, not verified: pyserial ReaderThread/LineReader, queue.Queue, threading.Event/Lock/Thread.join, time.sleep and the port are replaced by the harness's simulated primitives (their contracts are the model's assumptions); real-clock behaviour and OS scheduling latency / thread teardown are outside every theorem."
+
 CHECKS = {
+    "C06": dict(
+        text="Coq theorems over the regenerated function tables and the subunit machine: the initial query plan of EVERY subunit class has no duplicates, contains exactly the own GET or "
+        "group query of every function not excluded from initialisation, excluded functions are never queried, the submissions are one GET per plan entry followed by SYS:VERSION last; "
+        "for EVERY message history the event is set exactly by a SYS:VERSION message, every message before it has been completely processed (so C03 applies: readable), no notification "
+        "before initialisation; the time-out is base + per_cmd * (#queries) from the regenerated constants. The real SubunitBase.initialize of all 23 classes runs on a real connection under "
+        "the deterministic harness with devices answering all/some/none, late or missing sync replies, floods and stray VERSION lines; submissions compared with the model, barrier / time-out "
+        "/ callback gating judged by a monitor.",
+        note=BASE_NOTE + HARNESS_NOTE + " PARTIAL: the barrier is proved for the reader's sequential processing order; that the caller wakes only after the reader set the event is threading.Event's contract (harness).",
+        technique="Coq proof (induction over histories, reflection over regenerated tables) + differential correspondence via deterministic simulation",
+        design_ref="6 (C06)",
+    ),
+    "C07": dict(
+        text="Coq theorems over Model/Api.v for EVERY list of messages delivered during detection: the exposed set is exactly SYS plus the ids whose AVAIL line with a value was delivered, "
+        "each id maps to the class with that id (regenerated tables, ids unique), detection submits one AVAIL query per known id and the sync query last; population reduces to C06 + C03 per "
+        "exposed subunit. The real YncaApi.initialize() runs under the deterministic harness against the 12 recorded receivers, random synthetic devices (subsets of subunits/functions, "
+        "unsolicited updates, latency/jitter) and PAIRS of API objects on different devices initialising concurrently; accessor sets compared with the model, values with an independent reference.",
+        note=BASE_NOTE + HARNESS_NOTE + " PARTIAL: device predicates (FIFO replies, AVAIL lines only in answer to the AVAIL query) are hypotheses validated against the 12 recordings only.",
+        technique="Coq proof (induction over delivered messages, reflection over regenerated tables) + differential correspondence via deterministic simulation",
+        design_ref="6 (C07)",
+    ),
+    "C14": dict(
+        text="Coq theorems: every wait of initialize() is a timed wait whose bound is a closed form over the regenerated constants and tables (phases_bound), the worst case over all 23 classes "
+        "is <= 300 s; after close() the accessors are cleared, the connection dropped and (C16) the port closed and threads stopped. Fault enumeration on the real code under the deterministic "
+        "harness: for a recorded and synthetic devices, silence after the k-th reply for every k, end-of-file / I/O error after byte offsets including the end of EVERY synchronisation reply "
+        "(between two phases) and inside CR LF, write errors at every other write, port-open failure; monitor: library exception, within the bound, nothing left behind.",
+        note=BASE_NOTE + HARNESS_NOTE + " PARTIAL: 'raises rather than returns' for each fault position is established by the enumeration on the real code (every k in quick for the recorded device, strided for others), not by a theorem about the Python exception flow.",
+        technique="Coq proof (closed-form bound by reflection over regenerated constants) + exhaustive fault-position enumeration via deterministic simulation",
+        design_ref="6 (C14)",
+    ),
+    "C17": dict(
+        text="Coq theorems over the connection-check machine (Model/Api.cc_run) for EVERY list of delivered messages: the result is the last model name delivered together with exactly the "
+        "zones whose AVAIL value was delivered before it, no model name means the connection error, parser messages are well formed; the regenerated time-out is 1.5 s; the temporary connection "
+        "is closed in every outcome (C16). The real connection_check() runs under the deterministic harness over all 16 zone subsets x latencies around the 100 ms pacing x swallowed first probe "
+        "x fault points x schedules; results compared with the model and judged by a monitor.",
+        note=BASE_NOTE + HARNESS_NOTE,
+        technique="Coq proof (induction over delivered messages) + exhaustive grid correspondence via deterministic simulation",
+        design_ref="6 (C17)",
+    ),
     "C04": dict(
         text="Coq theorems (decode total / round trip / injective / text identity, generic in the enum tables) instantiated by reflection "
         "(vm_compute) over the enumerations, function descriptors and recorded triples regenerated from /repo on every run; "
